@@ -685,11 +685,8 @@ namespace bloch::compiler {
             if (actual.isTypeParam)
                 return expected.className == actual.className ? std::optional<int>(0)
                                                               : std::nullopt;
-            if (auto bound = getTypeParamBound(expected.className)) {
-                if (!bound->className.empty())
-                    return conversionCost(*bound, actual);
-            }
-            return 1;
+            // only a value of type T is a T (see isAssignableType); a value of unknown type passes
+            return actual.className.empty() ? std::optional<int>(1) : std::nullopt;
         }
 
         if (isArrayType(expected)) {
@@ -2613,15 +2610,13 @@ namespace bloch::compiler {
                             // instantiated.
                             continue;
                         }
-                        if (auto bound = getTypeParamBound(expected.className)) {
-                            if (!bound->className.empty() && !actual.className.empty() &&
-                                actual.className != bound->className &&
-                                !isSubclassOf(actual.className, bound->className)) {
-                                throw BlochError(ErrorCategory::Semantic, arg->line, arg->column,
-                                                 "argument #" + std::to_string(i + 1) + " to '" +
-                                                     name + "' must satisfy bound '" +
-                                                     typeLabel(*bound) + "'");
-                            }
+                        // a value of some class is not a T, whatever T's bound (T may stand for a
+                        // subclass of it, or for int)
+                        if (!actual.className.empty()) {
+                            throw BlochError(ErrorCategory::Semantic, arg->line, arg->column,
+                                             "argument #" + std::to_string(i + 1) + " to '" + name +
+                                                 "' expected type parameter '" +
+                                                 expected.className + "'");
                         }
                         continue;
                     }
